@@ -397,13 +397,17 @@ def _seq_runs(ctx):
     need = ("Dateformat=3 CropFileFormat=csv WeatherRootFolder=./weather/ WeatherNoneValue=999.9 OutputIntervall=1 AnnualOutputDate=1031 "
             "AutoSowingHarvest=0 AutoFertilization=0 AutoHarvest=0 EndDate=12311983")
     base = "project=ex1 WeatherFolder=historical soilId=075 fcode=109_120 plotNr=10001 Altitude=73 Latitude=52.6732 poligonID=29872 " + need
-    A = base + " resultfolder=RESULT/a ResultFileExt=xyz NDeposition=90 LeachingDepth=9 AutoIrrigation=0"
+    # line A also differs in keys that are consumed by the READERS behind the configuration (precipitation correction of the weather
+    # reader, CO2 concentration): a session-level cache of what a reader produced must not carry them to line B (seeded C14-17)
+    A = base + " resultfolder=RESULT/a ResultFileExt=xyz NDeposition=90 LeachingDepth=9 AutoIrrigation=0 CorrectionPrecipitation=1 CO2concentration=650"
     B = base + " resultfolder=RESULT/b"
 
     def scenario(name):
         ex = os.path.join(ctx.work, "seq_" + name)
         shutil.copytree(os.path.join(REPO, "examples"), ex)
         os.remove(os.path.join(ex, "project", "ex1", "config.yml"))
+        with open(os.path.join(ex, "weather", "historical", "preco.txt"), "w") as pf:        # factors of line A's precipitation correction
+            pf.write("Mo Corr\n" + "\n".join("%2d %.2f" % (m + 1, 1.10 + 0.03 * m) for m in range(12)))
         batches = {"same-session": [[A, B]], "later-process": [[A], [B]], "fresh": [[B]]}[name]
         tail = ""
         for i, lines in enumerate(batches):
